@@ -423,6 +423,115 @@ Qed.
 Lemma matchdict_single_writer_true : (matchdict_single_writer =? 1)%N = true.
 Proof. vm_compute. reflexivity. Qed.
 
+(* ------------------------------------------------------------ ninth round: legacy path=, include overrides *)
+From Coq Require Import Sorting.Sorted.
+
+Theorem legacy_pattern_wins p path : legacy_pattern_model (Some p) path = Some p.
+Proof. reflexivity. Qed.
+Theorem legacy_path_alone path : legacy_pattern_model None path = path.
+Proof. reflexivity. Qed.
+
+(* the bw-compat statement of add_route regenerated from the source *)
+Theorem gen_legacy_pattern_is_model pattern path : gen_legacy_pattern pattern path = legacy_pattern_model pattern path.
+Proof. unfold gen_legacy_pattern, legacy_pattern_model. destruct pattern, path; reflexivity. Qed.
+
+(* which declarations survive the commit, with the index of their declaration: exactly those whose
+   verdict is "stands", in declaration order *)
+Lemma survivors_char all : forall xs i surv, survivors all i xs = Some surv ->
+  forall j x, In (j, x) surv <->
+    exists k, j = i + k /\ nth_error xs k = Some x /\ override_verdict all x = Some true.
+Proof.
+  induction xs as [|y r IH]; intros i surv H j x; cbn [survivors] in H.
+  - injection H as <-. split; [intros []|]. intros (k & _ & Hn & _). destruct k; discriminate.
+  - destruct (override_verdict all y) as [[|]|] eqn:Ev; [| |discriminate];
+      destruct (survivors all (S i) r) as [t|] eqn:Et; try discriminate; injection H as <-.
+    + split.
+      * intros [Hh|Ht].
+        -- injection Hh as <- <-. exists 0. rewrite Nat.add_0_r. auto.
+        -- apply (IH _ _ Et) in Ht. destruct Ht as (k & -> & Hn & Hv). exists (S k). split; [lia|auto].
+      * intros (k & -> & Hn & Hv). destruct k as [|k].
+        -- cbn in Hn. injection Hn as <-. left. rewrite Nat.add_0_r. reflexivity.
+        -- right. apply (IH _ _ Et). exists k. split; [lia|auto].
+    + split.
+      * intros Ht. apply (IH _ _ Et) in Ht. destruct Ht as (k & -> & Hn & Hv). exists (S k). split; [lia|auto].
+      * intros (k & -> & Hn & Hv). destruct k as [|k].
+        -- cbn in Hn. injection Hn as <-. congruence.
+        -- apply (IH _ _ Et). exists k. split; [lia|auto].
+Qed.
+
+Lemma survivors_sorted all : forall xs i surv, survivors all i xs = Some surv ->
+  StronglySorted lt (map fst surv) /\ Forall (fun j => i <= j) (map fst surv).
+Proof.
+  induction xs as [|y r IH]; intros i surv H; cbn [survivors] in H.
+  - injection H as <-. split; constructor.
+  - destruct (override_verdict all y) as [[|]|]; [| |discriminate];
+      destruct (survivors all (S i) r) as [t|] eqn:Et; try discriminate; injection H as <-;
+      destruct (IH _ _ Et) as [Hs Hf].
+    + cbn [map fst]. split.
+      * constructor; [assumption|]. eapply Forall_impl; [|exact Hf]. cbn. intros; lia.
+      * constructor; [lia|]. eapply Forall_impl; [|exact Hf]. cbn. intros; lia.
+    + split; [assumption|]. eapply Forall_impl; [|exact Hf]. cbn. intros; lia.
+Qed.
+
+Theorem resolve_overrides_char xs surv : resolve_overrides xs = Some surv ->
+  StronglySorted lt (map fst surv)
+  /\ forall j x, In (j, x) surv <-> nth_error xs j = Some x /\ override_verdict xs x = Some true.
+Proof.
+  intros H. split; [apply (survivors_sorted _ _ _ _ H)|].
+  intros j x. rewrite (survivors_char _ _ _ _ H). split.
+  - intros (k & -> & Hn & Hv). auto.
+  - intros [Hn Hv]. exists j. auto.
+Qed.
+
+(* a declaration that stands although its name is declared several times is the top-level one *)
+Theorem override_survivor_is_top xs x y :
+  override_verdict xs x = Some true -> In y xs -> x_same x y = true -> y <> x -> In x xs -> x_top x = true.
+Proof.
+  unfold override_verdict. intros H Hy Hs Hne Hx.
+  destruct (filter (x_same x) xs) as [|a [|b l]] eqn:E.
+  - assert (In y (filter (x_same x) xs)) by (apply filter_In; auto). rewrite E in H0. destruct H0.
+  - assert (Hy' : In y (filter (x_same x) xs)) by (apply filter_In; auto).
+    assert (Hx' : In x (filter (x_same x) xs)) by (apply filter_In; split; [assumption|apply text_eqb_refl]).
+    rewrite E in Hy', Hx'. destruct Hy' as [<-|[]]. destruct Hx' as [<-|[]]. congruence.
+  - destruct (filter x_top (a :: b :: l)) as [|c [|d l']]; try discriminate. injection H as H. exact H.
+Qed.
+
+(* route identities are renamed to declaration indexes: dispatch commutes with the renaming *)
+Lemma dispatch_with_ren mt f method path : forall rs,
+  dispatch_with mt method (map (ren_route f) rs) path =
+  (option_map (fun rd => (ren_route f (fst rd), snd rd)) (fst (dispatch_with mt method rs path)),
+   map (fun ev => (f (fst ev), snd ev)) (snd (dispatch_with mt method rs path))).
+Proof.
+  induction rs as [|r rest IH]; [reflexivity|]. cbn [map dispatch_with]. cbn [ren_route r_pat r_preds r_id].
+  destruct (mt (r_pat r) path) as [d|]; [|apply IH].
+  destruct (eval_preds method d (r_preds r) 0) as [ok n]. destruct ok; [reflexivity|].
+  rewrite IH. destruct (dispatch_with mt method rest path) as [o tr]. reflexivity.
+Qed.
+
+Definition ren_outcome (f : nat -> nat) (o : outcome) : outcome :=
+  match o with OMatch r d => OMatch (ren_route f r) d | _ => o end.
+
+Theorem gen_call_ren mt f m method raw :
+  fst (gen_call mt (ren_mapper f m) method raw) = ren_outcome f (fst (gen_call mt m method raw)).
+Proof.
+  rewrite !fst_gen_call. unfold dispatch_request_with. destruct (request_path raw); [reflexivity|].
+  cbn [ren_mapper routelist]. rewrite dispatch_with_ren.
+  destruct (dispatch_with mt method (routelist m) t) as [[[r d]|] tr]; reflexivity.
+Qed.
+
+(* end to end for a configuration with include overrides: the survivors, connected in declaration
+   order by the regenerated connect and asked through the regenerated __call__ with identities
+   renamed to declaration indexes, answer what the specification says of the survivors *)
+Theorem gen_request_spec_survivors O f ds method raw m sts :
+  sup_with (spec_parse_m O) ds = true ->
+  connect_all_f (gen_connect (parse_pattern_m O)) empty_mapper 0 ds = (m, sts) ->
+  ren_spec f (spec_request_m O ds method raw)
+  = spec_of_outcome (fst (gen_call (match_pat_m O) (ren_mapper f m) method raw)).
+Proof.
+  intros Hs Hc. rewrite gen_call_ren, (gen_request_spec_m _ _ _ _ _ _ Hs Hc).
+  destruct (fst (gen_call (match_pat_m O) m method raw)); reflexivity.
+Qed.
+
 (* ------------------------------------------------------------ examples *)
 Require Import Coq.Strings.String.
 Local Open Scope string_scope.
